@@ -38,6 +38,7 @@ from .values import (
     CallbackVal,
     DObj,
     ElemRef,
+    ExtObj,
     Frame,
     Func,
     LObj,
@@ -159,7 +160,7 @@ class LoopSpec:
                 recv = x.target
             if isinstance(recv, ast.Name) and recv.id in vars and recv.id not in names:
                 v = vars[recv.id]
-                if isinstance(v, Ref) and v.oid not in old_heap and isinstance(path.obj(v), (LObj, DObj, BAObj)):
+                if isinstance(v, Ref) and v.oid not in old_heap and isinstance(path.obj(v), (LObj, DObj, BAObj, ExtObj)):
                     if recv.id not in self.locals_t:
                         raise Unsupported(f'loop mutates the local container {recv.id!r} in place: declare its type in loop_locals')
                     names.add(recv.id)
@@ -374,6 +375,8 @@ class Config:
             return path.alloc(MObj(dom, cols, cls, mdl, t.default_factory, evcols))
         if isinstance(t, C.Event):
             return path.alloc(Obj(asyncio.Event, {'_flag': path.fresh_sym('bool', hint + '._flag')}))
+        if isinstance(t, C.ExtT):
+            return t.fresh(self, path, hint)
         raise Unsupported(f'fresh value of type {t!r}')
 
     def havoc_like(self, path, v, hint):
@@ -398,6 +401,9 @@ class Config:
                 return v
             if isinstance(o, LObj) and o.items is not None and not o.items:
                 raise Unsupported(f'loop local {hint}: list needs a declared type (loop_locals)')
+            if isinstance(o, ExtObj):
+                path.wobj(v).ext_havoc(path, v, hint)
+                return v
             return v  # objects keep identity; their fields are governed by modifies
         if v is None or isinstance(v, (str, OpaqueStr, Unknown)):
             return v
@@ -503,6 +509,8 @@ class Config:
                     raise Unsupported('havoc of a concrete-spine list (declare ListOf in the class model)')
             elif isinstance(ho, MObj):
                 self.havoc_map(path, Ref(oid), 'map')
+            elif isinstance(ho, ExtObj):
+                ho.ext_havoc(path, Ref(oid), 'ext')
             elif isinstance(ho, DObj):
                 raise Unsupported('havoc of a concrete-spine dict')
 
@@ -697,6 +705,10 @@ class Config:
             return res
         exc_cls = outcomes[k]
         exc = path.new_exception(exc_cls)
+        # contract kwarg `exc_fields={ExcClass: {name: T}}`: attributes of the raised exception that the
+        # `raises` clause talks about (fresh values of the declared types, constrained by the clause)
+        for fname, ft in ((c2.extra.get('exc_fields') or {}).get(exc_cls) or {}).items():
+            path.wobj(exc).fields[fname] = self.fresh(path, ft, f'exc.{fname}')
         env2['exc'] = exc
         post = c2.raises[exc_cls]
         if post is not None:
@@ -760,6 +772,10 @@ class Config:
             elif isinstance(o0, DObj):
                 if o0.items.keys() != o1.items.keys() or any(o0.items[k] is not o1.items[k] for k in o0.items):
                     path.oblige(self.obl_name(path, 'frame', f'dict'), 'frame', False)
+            elif isinstance(o0, ExtObj):
+                same = o0.ext_unchanged(path, o1)
+                if same is not True:
+                    path.oblige(self.obl_name(path, 'frame', type(o0).__name__), 'frame', same)
             elif isinstance(o0, MObj):
                 if not o0.dom.eq(o1.dom):
                     path.oblige(self.obl_name(path, 'frame', 'map.dom'), 'frame', mk_bool(o0.dom == o1.dom))
